@@ -10,7 +10,11 @@ T == ndJsonDeserialize(IOEnv.TRACE)
 Ev == T[l]
 TInit == ScInit /\ l = 1
 
-ObsLite(ds, s) == LET o == Obs(ds, s) IN [elements |-> o.elements, types |-> o.types, decls |-> o.decls]
+\* (the aliasee read-back `init` belongs to C02 and is judged on replayed behaviours only: recorded lines do not carry it)
+ObsLite(ds, s) == LET o == Obs(ds, s) IN
+                  [elements |-> o.elements, types |-> o.types,
+                   decls |-> [i \in 1..Len(o.decls) |-> [n |-> o.decls[i].n, t |-> o.decls[i].t, master |-> o.decls[i].master,
+                                                          declset |-> o.decls[i].declset, pos |-> o.decls[i].pos]]]
 
 TDeclare == /\ Ev.k # "reset"
             /\ Declare(Ev.s, Ev.k, Ev.n, Ev.t)
